@@ -1137,54 +1137,7 @@ class RealFabricDelivery:
           return _queue.PriorityQueue.task_done(self)
       return PQ()
 
-    class ListProxy(list):
-      def append(self, x):
-        d.before("registries", "append")
-        return list.append(self, x)
-
-      def __setitem__(self, k, v):
-        if isinstance(k, slice):
-          v = list(v)                      # the right-hand side is evaluated before the one C-level replacement
-          d.before("registries", "replace")
-        return list.__setitem__(self, k, v)
-
-      def __iter__(self):
-        i = 0
-        while True:
-          d.before("registries", "iter_next")
-          if i >= list.__len__(self):
-            return
-          yield list.__getitem__(self, i)
-          i += 1
-
-    def registry(name):
-      class KeysView:
-        def __init__(self, dd):
-          self.dd = dd
-
-        def __contains__(self, k):
-          d.before(name, "contains")
-          return dict.__contains__(self.dd, k)
-
-      class Reg(dict):
-        def __contains__(self, k):
-          d.before(name, "contains")
-          return dict.__contains__(self, k)
-
-        def __getitem__(self, k):
-          d.before(name, "getitem")
-          return dict.__getitem__(self, k)
-
-        def __setitem__(self, k, v):
-          if isinstance(v, list) and not isinstance(v, ListProxy):
-            d.before("registries", "new")          # the list literal the code has just built
-            v = ListProxy(v)
-          d.before(name, "setitem")
-          return dict.__setitem__(self, k, v)
-
-        def keys(self):
-          return KeysView(self)
-      return Reg()
+    ListProxy, registry = R.registry_proxies(d)
     self.fab = fab = ao.ActiveFabricSource()
     fab.fifo_fabric_queue = pq("fifo_queue")
     fab.lifo_fabric_queue = pq("lifo_queue")
@@ -1609,68 +1562,7 @@ def publishers_differential(kwargs, n, seed=0):
 
 
 # ---- subscribers scenario (C07: several objects subscribe to one signal at once) ------------------------------------------------------------
-def registry_proxies(d):
-  """(ListProxy, registry factory) for the fabric's subscription registries: a dict of lists whose operations are visible steps"""
-  class ListProxy(list):
-    def append(self, x):
-      d.before("registries", "append")
-      return list.append(self, x)
-
-    def __add__(self, other):
-      d.before("registries", "concat_new")
-      return ListProxy(list.__add__(self, other))
-
-    def __setitem__(self, k, v):
-      if isinstance(k, slice):
-        v = list(v)
-        d.before("registries", "replace")
-      return list.__setitem__(self, k, v)
-
-    def __iter__(self):
-      i = 0
-      while True:
-        d.before("registries", "iter_next")
-        if i >= list.__len__(self):
-          return
-        yield list.__getitem__(self, i)
-        i += 1
-
-  def registry(name, items=()):
-    class KeysView:
-      def __init__(self, dd):
-        self.dd = dd
-
-      def __contains__(self, k):
-        d.before(name, "contains")
-        return dict.__contains__(self.dd, k)
-
-    class Reg(dict):
-      def __contains__(self, k):
-        d.before(name, "contains")
-        return dict.__contains__(self, k)
-
-      def __getitem__(self, k):
-        d.before(name, "getitem")
-        return dict.__getitem__(self, k)
-
-      def __setitem__(self, k, v):
-        if isinstance(v, list) and not isinstance(v, ListProxy):
-          d.before("registries", "new")          # the list literal the code has just built
-          v = ListProxy(v)
-        d.before(name, "setitem")
-        return dict.__setitem__(self, k, v)
-
-      def get(self, k, default=None):
-        d.before(name, "get_default")
-        return dict.get(self, k, default)
-
-      def keys(self):
-        return KeysView(self)
-    r = Reg()
-    for k, v in items:
-      dict.__setitem__(r, k, ListProxy(v))
-    return r
-  return ListProxy, registry
+registry_proxies = R.registry_proxies
 
 
 class RealSubscribers:
